@@ -21,14 +21,14 @@ from concurrent.futures import ThreadPoolExecutor
 import vlib
 
 FAMILIES = {
-    "quick": ["q_expunge", "q_uid", "q_search", "q_move", "q_idle", "q_close"],
-    "thorough": ["t_expunge", "t_uid", "t_search", "t_move", "t_idle", "t_close", "t_flags", "t_three"],
+    "quick": ["q_expunge", "q_uid", "q_search", "q_move", "q_idle", "q_close", "q_slow"],
+    "thorough": ["t_expunge", "t_uid", "t_search", "t_move", "t_idle", "t_close", "t_flags", "t_three", "t_slow", "t_slow3"],
 }
 TRACE, TRACE_CFG = "MemViewsTrace", "MemViewsTrace.cfg"
 # vacuity gate: every command form of the statement must label a replayed transition
 ALL_COMMANDS = ["NOOP", "APPEND", "SELECT", "UNSELECT", "CLOSE", "FETCH", "UID-FETCH", "STORE", "UID-STORE",
                 "SEARCH", "UID-SEARCH", "EXPUNGE", "UID-EXPUNGE", "COPY", "UID-COPY", "MOVE", "UID-MOVE",
-                "IDLE", "DONE"]
+                "IDLE", "DONE", "STALL", "RESUME"]
 
 
 def run(ctx):
@@ -118,7 +118,7 @@ def run(ctx):
 
     with ThreadPoolExecutor(max_workers=3) as ex:
         recorded = list(ex.map(record, range(nfiles)))
-    trace_records, garbled, idle_deliveries, foreign, demo = 0, 0, 0, 0, None
+    trace_records, garbled, idle_deliveries, foreign, demo, after_stall, stalls = 0, 0, 0, 0, None, 0, 0
     seen_sigs = {}
     for tr, s, ok, at, res in recorded:
         lines = open(tr).read().splitlines()
@@ -137,6 +137,8 @@ def run(ctx):
         garbled += s.get("garbled_completions", 0)
         idle_deliveries += s.get("idle_deliveries", 0)
         foreign += s.get("expunges_of_other_sessions_delivered", 0)
+        after_stall += s.get("responses_delivered_after_a_stall", 0)
+        stalls += (s.get("commands") or {}).get("STALL", 0)
         trace_records += s["records"]
         ctx.cov["evaluations"] += s["records"]
         # traces (Reset .. next Reset) without any BAD line were accepted as recorded
@@ -159,7 +161,8 @@ def run(ctx):
                "star_resolution_example_rfc_reading_not_taken": star_example,
                "garbled_empty_copy_completions_in_traces": garbled, "idle_deliveries_in_traces": idle_deliveries,
                "late_idle_wakeups": late, "replayed_transitions_by_command": commands,
-               "expunges_of_other_sessions_delivered_in_traces": foreign})
+               "expunges_of_other_sessions_delivered_in_traces": foreign,
+               "stalled_noops_in_traces": stalls, "responses_delivered_after_a_stall_in_traces": after_stall})
 
 
 def bad_lines(out_path):
